@@ -330,6 +330,8 @@ def obligations(prop):
         wrap("C16_G6_tables", generate_arrays, "source:outcome-table")
     if prop == "C15":
         wrap("C15_G7_control", generate_sprt, "source:control")
+    if prop == "C13":
+        wrap("C13_G8_bisection", generate_bisect, "source:control")
     return out
 
 
@@ -571,3 +573,63 @@ def generate_sprt(repo=None):
         "Theorem G7_sprt_conclude : forall ts A B, A < B -> src_conclude ts A B = conclude A B ts.",
         "Proof. intros. unfold src_conclude, conclude. cond_tac. Qed.", ""])
     return text, [{"site": "sprt.sprt", "while": ast.unparse(whiles[0].test), "decision": ast.unparse(chain[0]).replace("\n", " ; ")}]
+
+
+# =========================================================================================================
+# G8: the two integer bisection loops of hypergeom_conf_interval (initial bounds, mid-point, both updates).
+def tr_nat(node, names):
+    if isinstance(node, ast.Name) and node.id in names:
+        return names[node.id]
+    if isinstance(node, ast.Constant) and isinstance(node.value, int) and not isinstance(node.value, bool) and node.value >= 0:
+        return str(node.value)
+    if isinstance(node, ast.BinOp) and isinstance(node.op, ast.FloorDiv) and isinstance(node.right, ast.Constant) and node.right.value == 2:
+        return f"(Nat.div2 {tr_nat(node.left, names)})"
+    if isinstance(node, ast.BinOp) and type(node.op) in (ast.Add, ast.Sub):
+        return f"({tr_nat(node.left, names)} {'+' if isinstance(node.op, ast.Add) else '-'} {tr_nat(node.right, names)})"
+    raise Unsupported("integer expression outside the grammar: " + ast.unparse(node)[:80])
+
+
+def generate_bisect(repo=None):
+    repo = repo or os.environ.get("VERIF_REPO", "/repo")
+    fn = find_function(ast.parse(open(os.path.join(repo, "permute", "utils.py")).read()), "hypergeom_conf_interval")
+    loops = []
+    for outer in fn.body:
+        if isinstance(outer, ast.If):
+            ws = [s for s in outer.body if isinstance(s, ast.While)]
+            if ws:
+                init = [s for s in outer.body if isinstance(s, ast.Assign) and isinstance(s.targets[0], ast.Tuple)
+                        and [ast.unparse(t) for t in s.targets[0].elts] == ["lo", "hi"]]
+                res = [s for s in outer.body if isinstance(s, ast.Assign) and ast.unparse(s.targets[0]) in ("ci_low", "ci_upp")]
+                if len(ws) != 1 or len(init) != 1 or len(res) != 1 or ast.unparse(res[0].value) != "lo":
+                    raise Unsupported("bisection block has an unexpected shape")
+                loops.append((ast.unparse(res[0].targets[0]), init[0], ws[0]))
+    if [l[0] for l in loops] != ["ci_low", "ci_upp"]:
+        raise Unsupported(f"bisection loops found: {[l[0] for l in loops]}")
+    out = ["From Coq Require Import Arith Lia.", "From PV Require Import Lib.Base Model.ConfInt Lib.TailTables.", "Local Open Scope nat_scope.", ""]
+    detail = []
+    for name, init, w in loops:
+        if ast.unparse(w.test) != "lo < hi":
+            raise Unsupported("loop test " + ast.unparse(w.test))
+        if len(w.body) != 2 or not (isinstance(w.body[0], ast.Assign) and ast.unparse(w.body[0].targets[0]) == "mid") or not isinstance(w.body[1], ast.If):
+            raise Unsupported("loop body shape")
+        iff = w.body[1]
+        if ast.unparse(iff.test) != "f(mid) >= 0" or len(iff.body) != 1 or len(iff.orelse) != 1:
+            raise Unsupported("loop branch shape: " + ast.unparse(iff.test))
+        names = {"lo": "lo", "hi": "hi", "mid": "mid"}
+        mid = tr_nat(w.body[0].value, {"lo": "lo", "hi": "hi"})
+        def upd(st):
+            if not (isinstance(st, ast.Assign) and ast.unparse(st.targets[0]) in ("lo", "hi")):
+                raise Unsupported("update " + ast.unparse(st))
+            v = tr_nat(st.value, names)
+            return f"({v}, hi)" if ast.unparse(st.targets[0]) == "lo" else f"(lo, {v})"
+        a, b = upd(iff.body[0]), upd(iff.orelse[0])
+        lo0, hi0 = (tr_nat(e, {"x": "x", "N": "N", "n": "n"}) for e in init.value.elts)
+        kind = "min" if name == "ci_low" else "max"
+        out += [f"Definition src_step_{kind} (ok : nat -> bool) (lo hi : nat) : nat * nat := let mid := {mid} in if ok mid then {a} else {b}.",
+                f"Theorem G8_step_{kind} : forall ok lo hi, src_step_{kind} ok lo hi = bisect_{kind}_step ok lo hi.",
+                f"Proof. intros. unfold src_step_{kind}, bisect_{kind}_step. cbv zeta. destruct (ok _); f_equal; lia. Qed.",
+                f"Definition src_init_{kind} (x N n : nat) : nat * nat := ({lo0}, {hi0}).",
+                f"Theorem G8_init_{kind} : forall x N n, src_init_{kind} x N n = (x, N - (n - x)).",
+                f"Proof. intros. unfold src_init_{kind}. f_equal; lia. Qed.", ""]
+        detail.append({"loop": name, "mid": ast.unparse(w.body[0].value), "then": ast.unparse(iff.body[0]), "else": ast.unparse(iff.orelse[0]), "init": ast.unparse(init.value)})
+    return "\n".join(out), detail
